@@ -245,6 +245,9 @@ class Eval:
             if s:
                 return AV(t.lo, t.hi, t.nan, {(s, 0)}, {(s, 0)}, t.ty)
             return t
+        if k == "un" and n["op"] == "Not":
+            self.eval(n["x"])
+            return top("bool")
         if k == "un" and n["op"] == "Neg":
             x = self.eval(n["x"])
             return AV(-x.hi, -x.lo, x.nan, ty=x.ty)
@@ -255,6 +258,10 @@ class Eval:
         if k == "if":
             # condition refinement is not modelled: both branches are executed on copies of the state and joined
             cnd = strip(n["c"])
+            inv = False
+            while cnd.get("k") == "un" and cnd["op"] == "Not":   # `if !c {A} else {B}`: refine with c, branches swapped
+                cnd = strip(cnd["x"])
+                inv = not inv
             st0 = (dict(self.env), dict(self.fields), dict(self.cells))
             if cnd.get("k") == "letx":
                 src = pretty(strip(cnd["init"]))
@@ -265,12 +272,12 @@ class Eval:
                 self.eval(n["c"])
             ref = self._refinement(cnd)
             if ref:
-                self._apply_ref(ref, True)
+                self._apply_ref(ref, not inv)
             a = self.eval(n["th"])
             st1 = (self.env, self.fields, self.cells)
             self.env, self.fields, self.cells = (dict(st0[0]), dict(st0[1]), dict(st0[2]))
             if ref:
-                self._apply_ref(ref, False)
+                self._apply_ref(ref, inv)
             b = self.eval(n["el"]) if n["el"] is not None else None
             st2 = (self.env, self.fields, self.cells)
             self.env, self.fields, self.cells = [_join_maps(x, y) for x, y in zip(st1, st2)]
